@@ -83,23 +83,30 @@ import (
 // with the property prefix because package server is shared with other checks.
 // Every key is documented in c18ServerNotes and has a probe of the same name.
 var C18KnownIssues = map[string]bool{
-	"policy-origin-condition-not-listed":          true,
-	"policy-zero-value-dropped":                   true,
-	"policy-empty-community-action":               true,
-	"policy-med-mod-zero":                         true,
-	"policy-as4-plain-number-clamped":             true,
-	"policy-list-statement-community-action-type": true,
-	"path-link-local-next-hop-dropped":            true,
-
-	"peer-field-lost/conf.send_community":                                                    true,
-	"peer-field-lost/graceful_restart.mode":                                                  true,
-	"peer-field-lost/graceful_restart.stale_routes_time":                                     true,
-	"peer-field-lost/transport.mtu_discovery":                                                true,
-	"peer-field-lost/route_reflector.route_reflector_cluster_id":                             true,
-	"peer-field-lost/timers.config.minimum_advertisement_interval":                           true,
-	"peer-field-lost/afi_safis[].route_selection_options.config.disable_best_path_selection": true,
+	"policy-zero-value-dropped":           true,
+	"policy-as4-plain-number-clamped":     true,
+	"peer-field-lost/conf.send_community": true,
 }
 
+// c18ServerFixed lists the former C18KnownIssues keys that were repaired in gobgp (key -> subject
+// of the fixing commit).  Their masks are gone and their probes are kept as regression tests:
+// they must pass.  (peer-field-lost/graceful_restart.mode was a false alarm of this harness: the
+// field is operational state - oc.GracefulRestartState.Mode, bgp-op:mode - like local_restarting
+// and peer_restarting, nothing promises that it can be configured; it is no longer generated.)
+var c18ServerFixed = map[string]string{
+	"policy-origin-condition-not-listed":                                                     "fix: policy: list the origin condition of a statement",
+	"policy-empty-community-action":                                                          "fix: ListStatement: keep a community action with an empty community list",
+	"policy-med-mod-zero":                                                                    "fix: policy: a MED modification by zero is not listed as 'replace with 0'",
+	"policy-list-statement-community-action-type":                                            "fix: ListStatement: action type of ext-community and large-community actions",
+	"path-link-local-next-hop-dropped":                                                       "fix: AddPath keeps the link-local next hop of MP_REACH_NLRI",
+	"peer-field-lost/graceful_restart.stale_routes_time":                                     "fix: keep graceful_restart.stale_routes_time of a neighbour",
+	"peer-field-lost/transport.mtu_discovery":                                                "fix: keep transport.mtu_discovery of a neighbour",
+	"peer-field-lost/route_reflector.route_reflector_cluster_id":                             "fix: ListPeer reports a configured route reflector cluster id",
+	"peer-field-lost/timers.config.minimum_advertisement_interval":                           "fix: ListPeer/ListPeerGroup report the minimum advertisement interval",
+	"peer-field-lost/afi_safis[].route_selection_options.config.disable_best_path_selection": "fix: keep disable_best_path_selection of an address family's route selection options",
+}
+
+// c18ServerNotes documents the keys of C18KnownIssues and of c18ServerFixed (as they were before the fix).
 var c18ServerNotes = map[string]string{
 	"policy-origin-condition-not-listed": "statement with conditions.origin (AddStatement / AddPolicy accept it, newOriginConditionFromApiStruct): ListStatement never reports it " +
 		"(pkg/server toStatementApi has no code for OriginEq); ListPolicy / ListPolicyAssignment (internal/pkg/table toStatementApi) report the origin of the *set-route-origin action* " +
@@ -116,7 +123,6 @@ var c18ServerNotes = map[string]string{
 		"api.CommunityAction_Type(oc.BgpSetCommunityOptionTypeToIntMap[...]); that map counts ADD=0, REMOVE=1, REPLACE=2 while the API enum is ADD=1, REMOVE=2, REPLACE=3: " +
 		"ADD is listed as UNSPECIFIED, REMOVE as ADD, REPLACE as REMOVE (ListPolicy uses a name switch and is right).",
 	"peer-field-lost/conf.send_community":                "api.PeerConf.send_community: newNeighborFromAPIStruct never reads it (oc.NeighborConfig.SendCommunity stays empty), NewPeerFromConfigStruct never writes it.",
-	"peer-field-lost/graceful_restart.mode":              "api.GracefulRestart.mode: not read by newNeighborFromAPIStruct, not written by NewPeerFromConfigStruct.",
 	"peer-field-lost/graceful_restart.stale_routes_time": "api.GracefulRestart.stale_routes_time: not read by newNeighborFromAPIStruct (oc.GracefulRestartConfig.StaleRoutesTime), not written by NewPeerFromConfigStruct.",
 	"peer-field-lost/transport.mtu_discovery":            "api.Transport.mtu_discovery: not read by newNeighborFromAPIStruct (oc.TransportConfig.MtuDiscovery), not written by NewPeerFromConfigStruct.",
 	"peer-field-lost/route_reflector.route_reflector_cluster_id": "api.RouteReflector.route_reflector_cluster_id: newNeighborFromAPIStruct stores it in RouteReflector.Config, " +
@@ -605,7 +611,6 @@ func c18GenStatement(s *verifgen.Src, name string, sets []*c18Set, label func(st
 			c.Origin = api.OriginType(1 + s.Intn(3))
 			w.Origin = c.Origin
 			label("condition/origin/" + c.Origin.String())
-			add("policy-origin-condition-not-listed")
 		}
 		if s.Chance(1, 4) {
 			n := 1 + s.Intn(3)
@@ -676,9 +681,6 @@ func c18GenStatement(s *verifgen.Src, name string, sets []*c18Set, label func(st
 			}
 			a.Community, w.Community = ca, cw
 			label(fmt.Sprintf("action/community/%s/%d", ca.Type, min(n, 2)))
-			if n == 0 {
-				add("policy-empty-community-action")
-			}
 		}
 		if s.Chance(1, 3) {
 			ca, cw := &api.CommunityAction{Type: ctype()}, &api.CommunityAction{}
@@ -739,9 +741,6 @@ func c18GenStatement(s *verifgen.Src, name string, sets []*c18Set, label func(st
 				a.Med = &api.MedAction{Type: api.MedAction_TYPE_MOD, Value: int64(s.Intn(2001)) - 1000}
 				if s.Chance(1, 8) {
 					a.Med.Value = 0
-				}
-				if a.Med.Value == 0 {
-					add("policy-med-mod-zero")
 				}
 			}
 			w.Med = a.Med
@@ -1022,8 +1021,6 @@ func runC18Policy(c c18sCase, st *verifkit.Stats) *verifkit.Failure {
 func c18FieldShapes(where, field string, want, got *api.Statement) (keys []string) {
 	c, a := want.GetConditions(), want.GetActions()
 	switch field {
-	case "conditions.origin":
-		keys = append(keys, "policy-origin-condition-not-listed")
 	case "conditions.local_pref_eq":
 		if c.GetLocalPrefEq().GetValue() == 0 {
 			keys = append(keys, "policy-zero-value-dropped")
@@ -1036,22 +1033,7 @@ func c18FieldShapes(where, field string, want, got *api.Statement) (keys []strin
 		if a.GetLocalPref().GetValue() == 0 {
 			keys = append(keys, "policy-zero-value-dropped")
 		}
-	case "actions.med":
-		if a.GetMed().GetType() == api.MedAction_TYPE_MOD && a.GetMed().GetValue() == 0 {
-			keys = append(keys, "policy-med-mod-zero")
-		}
-	case "actions.community":
-		if a.GetCommunity() != nil && len(a.GetCommunity().GetCommunities()) == 0 {
-			keys = append(keys, "policy-empty-community-action")
-		}
-	case "actions.large_community":
-		if where == "ListStatement" {
-			keys = append(keys, "policy-list-statement-community-action-type")
-		}
 	case "actions.ext_community":
-		if where == "ListStatement" {
-			keys = append(keys, "policy-list-statement-community-action-type")
-		}
 		for _, x := range a.GetExtCommunity().GetCommunities() {
 			if strings.HasPrefix(x, "soo:") && !strings.Contains(strings.SplitN(x[4:], ":", 2)[0], ".") {
 				if v := strings.SplitN(x[4:], ":", 2)[0]; len(v) > 5 || len(v) == 5 && v > "65535" {
@@ -1350,12 +1332,8 @@ func (r *c18Route) build() (*api.Path, error) {
 	return p, nil
 }
 
-func (r *c18Route) shapes() (keys []string) {
-	if r.linkLoc.IsValid() {
-		keys = append(keys, "path-link-local-next-hop-dropped")
-	}
-	return keys
-}
+// shapes: the known-issue shapes of the route (none at present).
+func (r *c18Route) shapes() (keys []string) { return nil }
 
 func c18AttrBytes(l []bgp.PathAttributeInterface) ([][]byte, error) {
 	out := make([][]byte, 0, len(l))
@@ -1702,7 +1680,7 @@ func c18FullPeer() *api.Peer {
 		Timers:          &api.Timers{Config: &api.TimersConfig{ConnectRetry: 10, HoldTime: 90, KeepaliveInterval: 30, MinimumAdvertisementInterval: 5, IdleHoldTimeAfterReset: 7}},
 		RouteReflector:  &api.RouteReflector{RouteReflectorClient: true, RouteReflectorClusterId: "10.0.0.1"},
 		RouteServer:     &api.RouteServer{RouteServerClient: true, SecondaryRoute: true},
-		GracefulRestart: &api.GracefulRestart{Enabled: true, RestartTime: 120, HelperOnly: true, DeferralTime: 30, NotificationEnabled: true, LonglivedEnabled: true, StaleRoutesTime: 60, Mode: "helper-only"},
+		GracefulRestart: &api.GracefulRestart{Enabled: true, RestartTime: 120, HelperOnly: true, DeferralTime: 30, NotificationEnabled: true, LonglivedEnabled: true, StaleRoutesTime: 60},
 		Transport:       &api.Transport{LocalAddress: "192.0.2.254", LocalPort: 1179, MtuDiscovery: true, PassiveMode: true, RemotePort: 179, TcpMss: 1400, BindInterface: "eth1", IpTos: 192},
 		EbgpMultihop:    &api.EbgpMultihop{Enabled: true, MultihopTtl: 3},
 		TtlSecurity:     &api.TtlSecurity{Enabled: true, TtlMin: 254},
@@ -1714,28 +1692,40 @@ func c18FullPeer() *api.Peer {
 }
 
 func init() {
-	for k := range C18KnownIssues {
+	peer := func(k string) {
 		if !strings.HasPrefix(k, "peer-field-lost/") {
-			continue
+			return
 		}
 		c18ServerProbes[k] = c18ServerProbe{"C18_peer", func() ([]c18sFail, *verifkit.Failure) {
 			return c18CheckPeer(c18FullPeer(), verifkit.Scratch("C18_peer"))
 		}}
 	}
+	for k := range C18KnownIssues {
+		peer(k)
+	}
+	for k := range c18ServerFixed {
+		peer(k)
+	}
 }
 
 // c18RunServerProbe returns the failure of the probe that the shape key explains (nil: the issue does not reproduce).
+// The probe of a repaired issue (c18ServerFixed) has no shape any more: any difference in the field
+// (peer probes: c18sFail.class is the field path) or any difference at all (the other probes) counts.
 func c18RunServerProbe(key string) (f *verifkit.Failure, other []string) {
 	fails, hard := c18ServerProbes[key].run()
 	if hard != nil {
 		return hard, nil
 	}
+	_, fixed := c18ServerFixed[key]
 	for _, x := range fails {
 		has := false
 		for _, k := range x.shapes {
 			if k == key {
 				has = true
 			}
+		}
+		if fixed && len(x.shapes) == 0 {
+			has = !strings.HasPrefix(key, "peer-field-lost/") || c18PeerShape(x.class) == key
 		}
 		if has && f == nil {
 			f = x.f
@@ -1787,9 +1777,28 @@ func TestVerifC18ServerProbes(t *testing.T) {
 			t.Logf("known issue %s: sig=%s %s", k, f.Sig, f.Msg)
 		}
 	}
+	fixed := make([]string, 0, len(c18ServerFixed))
+	for k := range c18ServerFixed {
+		fixed = append(fixed, k)
+	}
+	sort.Strings(fixed)
+	for _, k := range fixed {
+		if _, open := C18KnownIssues[k]; open {
+			t.Errorf("%s is listed as fixed and as known issue", k)
+		}
+		if _, ok := c18ServerProbes[k]; !ok || c18ServerNotes[k] == "" {
+			t.Errorf("fixed issue %s has no note or no reproducer", k)
+			continue
+		}
+		if f, _ := c18RunServerProbe(k); f != nil {
+			t.Errorf("VERIF-FAIL fixed issue %s (%s) is back: sig=%s %s", k, c18ServerFixed[k], f.Sig, f.Msg)
+		}
+	}
 	for k := range c18ServerProbes {
-		if _, ok := C18KnownIssues[k]; !ok {
-			t.Errorf("probe %s has no C18KnownIssues entry", k)
+		_, open := C18KnownIssues[k]
+		_, done := c18ServerFixed[k]
+		if !open && !done {
+			t.Errorf("probe %s has neither a C18KnownIssues nor a c18ServerFixed entry", k)
 		}
 	}
 }
@@ -1882,7 +1891,7 @@ func c18GenPeer(s *verifgen.Src, label func(string)) *api.Peer {
 	}
 	if s.Chance(1, 2) {
 		p.GracefulRestart = &api.GracefulRestart{Enabled: s.Bool(), RestartTime: uint32(s.Intn(4096)), HelperOnly: s.Bool(), DeferralTime: uint32(s.U16()),
-			NotificationEnabled: s.Bool(), LonglivedEnabled: s.Bool(), StaleRoutesTime: uint32(s.U16()), Mode: verifgen.Pick(s, []string{"", "helper-only"})}
+			NotificationEnabled: s.Bool(), LonglivedEnabled: s.Bool(), StaleRoutesTime: uint32(s.U16())} // mode, *_restarting and peer_restart_time are operational state
 		label("peer/graceful-restart")
 	}
 	if s.Chance(1, 2) {
